@@ -16,7 +16,7 @@ from liesel.goose.kernel_sequence import KernelSequence
 from liesel.goose.mh_kernel import MHProposal
 from simkit.core import EventLog, SutError, Violations, canon, sha
 
-RUN_CAP_S = 600
+RUN_CAP_S = 900
 TYPE = ["INITIAL", "FAST", "SLOW", "BURNIN", "POSTERIOR"]
 
 
